@@ -39,6 +39,31 @@ def limit_cases(rng, tier):
                     ops.append("f 30")
                 out.append(("hist %s inject %s %d %s %s 4 %s" % (v, hx(suites.le32s(bk)), L, hx(rng.bytes(ck)), hx(rng.bytes(4)),
                                                                     " ".join(ops)), start_total))
+    # literals that are new in the current source (empty on the audited tree): states placed around every length derived from a new
+    # integer n (n, 2^32-n, 2^32-1-n, 2^32-4-n, MAX-n, MAX+n), then a piece of about n bytes, then small pieces
+    import srcdict
+    ints = srcdict.new_literals()["ints"]
+    extra = []
+    for n in ints:
+        if not (2 <= n < 2 ** 32):
+            continue
+        ps = sorted(set(p for p in (n - 1, n, n + 1) if 1 <= p <= 70000)) or [1, 5]
+        for x in srcdict.derived_lengths([n]):
+            for d in range(-4, 5):
+                start_total = x + d
+                if start_total < 4 or start_total > 2 ** 32 + 3:
+                    continue
+                for p in ps:
+                    v = rng.choice(VNAMES)
+                    ck = suites.VARIANTS[v][0]
+                    L = min(start_total - 4, 2 ** 32 - 4)
+                    bk = [1 + rng.below(1000) for _ in range(256)]
+                    ops = "ugen %d %d l f 30 u %s l f 30 u %s l f 30" % (rng.below(2 ** 31), p, hx(rng.bytes(5)), hx(rng.bytes(1)))
+                    extra.append(("hist %s inject %s %d %s %s 4 %s" % (v, hx(suites.le32s(bk)), L, hx(rng.bytes(ck)), hx(rng.bytes(4)), ops),
+                                  start_total))
+    if len(extra) > 160:
+        extra = [extra[rng.below(len(extra))] for _ in range(160)]
+    out += extra
     return out
 
 
@@ -52,6 +77,9 @@ def check_limit_outputs(ctx, case, start_total, out):
         if toks[i] == "u":
             total += (len(toks[i + 1]) - 1) // 2
             i += 2
+        elif toks[i] == "ugen":
+            total += int(toks[i + 2])
+            i += 3
         elif toks[i] == "l":
             exp = "some %d" % total if total < 2 ** 32 else "none"
             if k >= len(obs) or obs[k] != exp:
